@@ -232,6 +232,50 @@ def run(chk: Check):
                 chk.violation("init:restricted:spin-broken-trial", f"restricted initial walkers for a spin-broken UHF trial ({norb} orbitals, "
                               f"({n},{n}) electrons, <up|dn> determinant overlap {c:g}) have trial overlap {ov.tolist()} - not bounded "
                               f"away from zero, and no error was raised", {"norb": norb, "n": n, "cos": c})
+    # ---- open-shell single-determinant trials whose down space lies inside the up space (ROHF-like), given in a basis
+    # in which the density matrix is NOT diagonal: the restricted initial walker represents the trial itself, so its
+    # trial overlap has modulus 1, its first n_dn columns span the down space and its local energy is the trial's
+    # variational energy (Slater-Condon value of the determinant, computed here from the density matrices)
+    from ad_afqmc import hamiltonian as _hamiltonian
+    for (norb, nu, nd) in ((4, 2, 1), (5, 3, 1), (6, 4, 2), (6, 3, 2)):
+        r2 = np.random.default_rng(1300 + chk.seed + 10 * norb + nu)
+        Cb = np.linalg.qr(r2.normal(size=(norb, norb)))[0]
+        Cu, Cd = Cb[:, :nu], Cb[:, :nd] @ np.linalg.qr(r2.normal(size=(nd, nd)))[0]
+        h1 = r2.normal(size=(norb, norb)); h1 = (h1 + h1.T) / 2
+        ch = r2.normal(size=(3, norb, norb)) * 0.4; ch = (ch + ch.transpose(0, 2, 1)) / 2
+        trial = wavefunctions.uhf(norb, (nu, nd))
+        wdx = {"mo_coeff": [jnp.array(Cu), jnp.array(Cd)]}
+        wdx["rdm1"] = jnp.array([Cu @ Cu.T, Cd @ Cd.T])
+        hdx = {"h0": 0.3, "h1": jnp.array([h1, h1]), "chol": jnp.array(ch.reshape(3, -1)), "ene0": 0.0}
+        hdx = _hamiltonian.hamiltonian(norb).build_measurement_intermediates(hdx, trial, wdx)
+        Pu, Pd = Cu @ Cu.T, Cd @ Cd.T
+        evar = 0.3 + np.trace(h1 @ (Pu + Pd)) + 0.5 * sum(np.trace(L @ (Pu + Pd)) ** 2 - np.trace(L @ Pu @ L @ Pu) - np.trace(L @ Pd @ L @ Pd) for L in ch)
+        chk.case(("rohf-like", norb, nu, nd))
+        chk.traces += 1
+        site = "init:restricted:open-shell-rotated-basis"
+        try:
+            w = np.asarray(trial.get_init_walkers(wdx, 2, restricted=True))
+        except ValueError:
+            chk.violation(site + ":refused", f"restricted initial walkers refused for an ROHF-like trial ({norb} orbitals, ({nu},{nd}) "
+                          f"electrons) that a restricted walker represents exactly", {"norb": norb, "nelec": [nu, nd]})
+            continue
+        bad = []
+        if w.shape != (2, norb, nu) or not np.allclose(w[0].conj().T @ w[0], np.eye(nu), atol=1e-10):
+            bad.append(f"shape {w.shape} / not orthonormal")
+        else:
+            ov = np.abs(np.asarray(trial.calc_overlap(jnp.array(w), wdx)))
+            el = np.asarray(trial.calc_energy(jnp.array(w), hdx, wdx))
+            span = np.linalg.norm(Cd - w[0][:, :nd] @ (w[0][:, :nd].conj().T @ Cd))
+            if np.max(np.abs(ov - 1.0)) > 1e-8:
+                bad.append(f"|trial overlap| {ov.tolist()} instead of 1")
+            if span > 1e-8:
+                bad.append(f"first {nd} columns do not span the trial's down space (residual {span:.2e})")
+            if np.max(np.abs(el - evar)) > 1e-8 * max(1.0, abs(evar)):
+                bad.append(f"local energy {el.tolist()} differs from the trial's variational energy {evar}")
+        if bad:
+            chk.violation(site, f"uhf trial with down space inside the up space, random orthogonal basis ({norb} orbitals, ({nu},{nd}) "
+                          f"electrons): restricted initial walkers do not represent the trial: " + "; ".join(bad),
+                          {"norb": norb, "nelec": [nu, nd], "seed": chk.seed})
     for I in var_insts:
         if I["id"] not in res:
             continue
